@@ -70,13 +70,6 @@ func (c *frombeCircuit) Define(api frontend.API) error {
 	return nil
 }
 
-func varsOf(xs []int) []frontend.Variable {
-	out := make([]frontend.Variable, len(xs))
-	for i, x := range xs {
-		out[i] = x
-	}
-	return out
-}
 
 func init() {
 	commands["c06"] = func(args []string) {
